@@ -595,7 +595,11 @@ func sortStrings(s []string) {
 // the handshakes interleave at every statement of the key-derivation helpers.
 func twoConnections(cfg *mc.Config, emit func(mc.Scenario)) {
 	seed := cfg.Seed
-	emit(mc.Scenario{Name: "two-connections", Bound: 1, Weight: 200, Run: func(c *mc.Ctx) {
+	tb := 1
+	if cfg.Thorough() {
+		tb = 2
+	}
+	emit(mc.Scenario{Name: "two-connections", Bound: tb, Weight: 200, Run: func(c *mc.Ctx) {
 		rnd.Install(rnd.New(seed, "c13-two"))
 		type ep struct {
 			role string
